@@ -445,4 +445,6 @@ pub fn run(ctx: &Ctx) {
         ctx.extra("child_failures", json!(failures));
     }
     ctx.add_counter("schedule-probe-distinct-maps", sched.len() as u64);
+    // Miri lane (thorough): 3-thread k-means under the data-race detector, 8 scheduler seeds
+    miri_lane(ctx, "c20", 8);
 }
